@@ -10,6 +10,8 @@ pub mod node;
 pub mod h_graph;
 pub mod h_panic;
 pub mod h_fin;
+#[cfg(feature = "weak-ptrs")]
+pub mod h_weak;
 
 #[cfg(feature = "native")]
 pub mod registry;
